@@ -35,6 +35,8 @@ type Engine struct {
 	targetOf map[*Contract]*ssa.Function
 	typeTags map[string]int
 	bounds   map[boundKey]*Term
+	recSpecs map[*ssa.Function]*Contract
+	recFoot  map[*ssa.Function][]footKey
 	typeByString map[string]types.Type
 	tables   map[string]*Term
 	writtenGlobals map[*ssa.Global]bool
@@ -48,7 +50,7 @@ type Engine struct {
 func newEngine(repo, mirror string) *Engine {
 	return &Engine{repo: repo, mirror: mirror, pkgs: map[string]*ssa.Package{}, lpkgs: map[string]*packages.Package{}, astFiles: map[string]*ast.File{},
 		finfo: map[*ssa.Function]*FuncInfo{}, strLits: map[string]*Term{}, strArr: map[string]*Term{}, byTarget: map[*ssa.Function]*Contract{},
-		targetOf: map[*Contract]*ssa.Function{}, bounds: map[boundKey]*Term{}, typeTags: map[string]int{}, typeByString: map[string]types.Type{}, tables: map[string]*Term{}, maxDepth: 8, genSrc: map[string]string{}}
+		targetOf: map[*Contract]*ssa.Function{}, bounds: map[boundKey]*Term{}, recFoot: map[*ssa.Function][]footKey{}, typeTags: map[string]int{}, typeByString: map[string]types.Type{}, tables: map[string]*Term{}, maxDepth: 8, genSrc: map[string]string{}}
 }
 
 var errLineRe = regexp.MustCompile(`^(.*vc_[a-z0-9_]+_verif\.go):(\d+)`)
@@ -619,6 +621,9 @@ func (e *Engine) verifyUnit(ct *Contract) (u *Unit) {
 	name := ct.Pkg + "." + ct.Name
 	u = &Unit{Contract: ct, Name: name}
 	if ct.Kind == "spec" {
+		if ct.Flags["decreases"] != "" && ct.Disabled == "" {
+			return e.verifySpecDef(ct, u)
+		}
 		return nil
 	}
 	if ct.Disabled != "" {
@@ -697,6 +702,72 @@ func (e *Engine) verifyUnit(ct *Contract) (u *Unit) {
 	if ct.Flags["nocanary"] == "" {
 		name := c.unitName + "#canary"
 		c.obligs = append(c.obligs, &Oblig{Name: name, Kind: "canary", Func: c.unitName, Goal: Not(ret), NAssume: len(c.assumes)})
+	}
+	return u
+}
+
+// verifySpecDef checks that a recursive spec function is well-founded: under the path condition of every nested
+// application the declared measure is non-negative and strictly smaller than at entry.
+func (e *Engine) verifySpecDef(ct *Contract, u *Unit) *Unit {
+	gen := e.genFunc(ct, "")
+	mf := e.genFunc(ct, "_vcmeasure")
+	if gen == nil || mf == nil {
+		u.Err = "generated spec function not found"
+		return u
+	}
+	c := e.newCtx(u.Name, ct)
+	u.Ctx = c
+	defer func() {
+		if r := recover(); r != nil {
+			switch x := r.(type) {
+			case Unsupported:
+				u.Err = x.Error()
+			case BindError:
+				u.Err = "contract binding: " + x.Msg
+			default:
+				panic(r)
+			}
+		}
+		u.Obligs = c.obligs
+		u.Assumes = c.assumes
+		u.Notes = c.notes
+		u.Opaque = c.opaque
+		u.Inputs = c.inputs
+	}()
+	var args []Val
+	for _, p := range gen.Params {
+		v := c.paramVal(p.Name(), p.Type())
+		args = append(args, v)
+		c.inputs = append(c.inputs, InputVar{Name: p.Name(), Type: p.Type(), V: v})
+	}
+	st := &State{m: map[string]*Term{"alive": c.alive0}, epoch: newEpoch("pre", nil)}
+	c.pre = st.clone()
+	measure := func(fr *Frame, a []Val) *Term {
+		var parent *Frame = fr
+		var cur *State = st
+		if fr != nil {
+			cur = fr.cur
+		}
+		reach := TTrue
+		if fr != nil {
+			reach = fr.abs()
+		}
+		res, _, _ := c.runFunc(mf, a, nil, cur.clone(), reach, parent, frameOpts{spec: true})
+		return res[0].term()
+	}
+	c.recMeasure0 = measure(nil, args)
+	c.recTarget = gen
+	c.recMeasure = measure
+	// the footprint trial evaluation must not count as the checked evaluation
+	c.inUse = map[*ssa.Function]int{gen: 1}
+	n0 := len(c.obligs)
+	_, _, ret := c.runFunc(gen, args, nil, st, TTrue, nil, frameOpts{spec: true})
+	if len(c.obligs) == n0 {
+		// no nested application was seen: the definition is not recursive, nothing to check
+		c.notes = append(c.notes, "spec function has a decreases clause but no recursive application")
+	}
+	if ct.Flags["nocanary"] == "" {
+		c.obligs = append(c.obligs, &Oblig{Name: c.unitName + "#canary", Kind: "canary", Func: c.unitName, Goal: Not(ret), NAssume: len(c.assumes)})
 	}
 	return u
 }
